@@ -228,6 +228,7 @@ func checkGetFastaRecord(c *core.Ctx, rule string) {
 
 func C15(c *core.Ctx) {
 	c.Explanation("C15: every clause is decided by interpreting the responsible routine on a bounded, exhaustive family of small inputs (the routines only compare and index with their numeric arguments): sam.checkArgs over all (refLen<=4, start, end in -2..6); getFastaRecord on every row of length <=4 over {A,C,*,-} x every window x pad: trimmed output = columns s..e of the untrimmed output, padded output = untrimmed --pad output with everything outside s..e set to N; the legacy-flag reconciliation at the top of the toMultiAlign command (interpreted with each combination of flag values); trimAlignment/getRefOffset on every gapped reference row of length <=6 and every window; wrap and WriteWrapAlignment on every (length<=7, width<=8); the position-window predicate of both variant writers for every combination of set/unset bounds; writer start index under stdin.")
+	c16Structural(c) // the file path (findReference + streaming reader) and the stdin path (streaming reader only) accept the same lines
 	checkSamCheckArgs(c, "R2")
 	checkGetFastaRecord(c, "R2")
 	c15Legacy(c)
@@ -601,6 +602,17 @@ func c15Stdin(c *core.Ctx) {
 		return
 	}
 	c.Ob("R5/stdin/writer-start-index", file == stdin && strings.Contains(file, "q1,del:2:1\nq2,\n"), pos, "reading from stdin (reference record consumed, indices start at 1) writes %q; reading the file writes %q", stdin, file)
+	// a later record that carries the reference's name is treated alike in both modes (left out of the table)
+	{
+		v2 := mkVariant(c, "nuc", 5, 0, "A", "C")
+		file, err1 := evalWriteVariants(c, []eval.Value{mkAnno(c, "ref", 0), mkAnno(c, "q1", 1, v), mkAnno(c, "ref", 2, v2), mkAnno(c, "q3", 3)}, -1, -1, false, false, "ref")
+		stdin, err2 := evalWriteVariants(c, []eval.Value{mkAnno(c, "q1", 1, v), mkAnno(c, "ref", 2, v2), mkAnno(c, "q3", 3)}, -1, -1, true, false, "ref")
+		if err1 != nil || err2 != nil {
+			c.Und("R5/stdin/reference-named-record-treated-alike", pos, "cannot evaluate: %v %v", err1, err2)
+		} else {
+			c.Ob("R5/stdin/reference-named-record-treated-alike", file == stdin, pos, "a second record named like the reference: reading the file writes %q, reading the same bytes from stdin writes %q", file, stdin)
+		}
+	}
 	// in Variants the flag is set exactly when a record was taken from the stream
 	c15FirstMissing(c)
 }
